@@ -124,6 +124,72 @@ def _raw_text(vc, data):
 
 
 # ---------------------------------------------------------------------------------------------------------------------
+# metadata for the views: never raises, whatever the Content-Type header looks like
+
+MM = "mitmproxy.contentviews._utils:make_metadata"
+
+
+@scenario("make_metadata", functions=[MM])
+def s_make_metadata(vc):
+    import mitmproxy.ctx as mctx
+    kind = vc.case("message", ["http, no content-type", "http, content-type", "tcp", "udp", "websocket"])
+    parsable = vc.sym_bool("content_type_parsable")
+    ctype = vc.sym_bytes("content_type")
+    vc.assume(len_(ctype) > 0)
+    vc.assume(_ascii_bytes(vc, ctype))
+    t, st = vc.sym_str("type"), vc.sym_str("subtype")
+    mctx.options = mk_options(vc, protobuf_definitions="")
+    parsed = []
+
+    def parse(v, c):
+        # contract of net.http.headers.parse_content_type: (type, subtype, params) or None when the value is not type/subtype
+        parsed.append(c)
+        if v.mode == "native":
+            return (t, st, {}) if parsable else None
+        return If(parsable, v.lift((t, st, v.dict([]))), None)
+
+    vc.summary("mitmproxy.net.http.headers:parse_content_type", parse)
+    if kind.startswith("http"):
+        fields = ((b"content-type", ctype),) if kind == "http, content-type" else ((b"x-other", b"1"),)
+        data = vc.new("mitmproxy.http:ResponseData", http_version=b"HTTP/1.1", status_code=200, reason=b"OK", headers=vc.new("mitmproxy.http:Headers", fields=fields),
+                      content=b"", trailers=None, timestamp_start=1.0, timestamp_end=None)
+        message = vc.new("mitmproxy.http:Response", data=data)
+    elif kind == "tcp":
+        message = vc.new("mitmproxy.tcp:TCPMessage", from_client=True, content=b"x", timestamp=1.0)
+    elif kind == "udp":
+        message = vc.new("mitmproxy.udp:UDPMessage", from_client=True, content=b"x", timestamp=1.0)
+    else:
+        from wsproto.frame_protocol import Opcode
+        message = vc.new("mitmproxy.websocket:WebSocketMessage", type=Opcode.TEXT, from_client=True, content=b"x", timestamp=1.0, dropped=False, injected=False)
+    flow = vc.new(M + "Bag")
+    out = vc.call(MM, message, flow)
+    vc.ensure("no_exception", out.ok)
+    if not out.ok:
+        return
+    m = out.result
+    vc.ensure("flow_recorded", m.flow is flow)
+    slot = {"tcp": "tcp_message", "udp": "udp_message", "websocket": "websocket_message"}.get(kind, "http_message")
+    for name in ("http_message", "tcp_message", "udp_message", "websocket_message", "dns_message"):
+        got = vc.getattr(m, name)
+        vc.ensure(f"message_slot[{name}]", (got is message) if name == slot else isnone(got))
+    if kind == "http, content-type":
+        if vc.branch(parsable):
+            vc.ensure("content_type.type_slash_subtype", m.content_type == t + "/" + st)
+        else:
+            vc.ensure("content_type.none_when_header_is_not_type_slash_subtype", isnone(m.content_type))
+        vc.ensure("content_type.header_value_parsed_once", len(parsed) == 1)
+    else:
+        vc.ensure("content_type.none_without_header", isnone(m.content_type))
+
+
+def _ascii_bytes(vc, b):
+    if vc.mode == "native":
+        return all(c < 128 for c in b)
+    import z3
+    return SBool(z3.InRe(b.t, z3.Star(z3.Range(chr(0), chr(127)))))
+
+
+# ---------------------------------------------------------------------------------------------------------------------
 # view selection
 
 REG = "mitmproxy.contentviews._registry:ContentviewRegistry"
@@ -275,6 +341,8 @@ SAMPLES = {
     "application/socket.io": [b'42["event",{"a":"\x1b"}]', b"3", b"40"],
     "text/plain": [b"hello\x1b[2J\x07\x00\x7f", b"\xc2\x9b2J", "héllo ✓\u0085".encode(), b"\xff\xfe"],
     "": [b"", b"\x00", b"\x1b", b"\x9b"],
+    # Content-Type headers that are present but not type/subtype
+    "json": [b'{"a": 1}'], "text": [b"plain"], "*": [b"x"], "unknown; charset=utf-8": [b"x\x1b"], " ": [b"x"], ";": [b"x"], "/": [b"x"], "a/b/c; q": [b"x"],
 }
 
 
